@@ -77,8 +77,13 @@ def apply_op(inst, objs, usable):
     elif op == "translate_origin":
         r = T.TranslateOrigin()(t)
     elif op == "normalize":
-        if any(float(np.max(t.ndata[k])) == 0.0 for k in ("x", "y", "z", "r")):
-            return None          # Normalizer divides every column by its maximum: a column whose maximum is 0 is outside its domain (it would yield NaN)
+        def degenerate(col):
+            mx, big = float(np.max(col)), float(np.max(np.abs(col)))
+            return not (mx > 1e-6 * big)
+        if any(degenerate(t.ndata[k]) for k in ("x", "y", "z", "r")):
+            # Normalizer divides every column by its maximum: a column whose maximum is 0, negative, or a rounding residue next to its other values
+            # (1e-17 after a quarter turn) is outside its domain (it would yield NaN, or coordinates of 1e16)
+            return None
         r = T.Normalizer()(t)
     elif op == "radius_reset":
         r = T.RadiusReseter(2.5)(t)
